@@ -14,7 +14,7 @@
 (***************************************************************************)
 EXTENDS Util
 Props == {"C19"}
-Lits == {"int", "int2", "float", "qstr", "tuple", "list", "dict", "none", "true", "neg", "padded", "trail"}
+Lits == {"int", "int2", "float", "qstr", "qlit", "tuple", "list", "dict", "none", "true", "neg", "padded", "trail"}
 NonLits == {"bare", "call", "attr", "op", "litcall", "litsub", "empty", "unhash", "withsep"}
 Objs == {"obj_int", "obj_tuple", "obj_none"}
 Strs == Lits \cup NonLits
